@@ -22,8 +22,8 @@ from mc.tinymodels import make
 
 LEVEL = "fault_enumeration"
 
-STD_CFG = {"kind": "std", "model": "G2", "kwargs": {"signal_handling": True}}
-INS_CFG = {"kind": "ins", "model": "G2", "kwargs": {"signal_handling": True, "max_iteration": 3}}
+STD_CFG = {"kind": "std", "model": "G2", "kwargs": {"signal_handling": True, "exit_code": 77}}
+INS_CFG = {"kind": "ins", "model": "G2", "kwargs": {"signal_handling": True, "max_iteration": 3, "exit_code": 78}}
 
 COMMIT_FUNCS = ("consume_sample", "insert_live_point", "increment")
 
@@ -76,12 +76,18 @@ def std_case(item):
     res = dict(errs=[], fired=None, events=None, info={})
     model = make("G2")
     exit_code = None
+    handler_error = None
     try:
         fs = FlowSampler(model, output=out, resume=False, **copy.deepcopy(kw))
         try:
             fs.run(plot=False, save=False)
         except SystemExit as e:
             exit_code = e.code
+        except Exception as e:
+            if win.fired is None:
+                raise
+            # the handler was invoked and something other than SystemExit came out of it
+            handler_error = f"{type(e).__name__}: {e}"
         finally:
             win.stop()
     except Exception as e:
@@ -106,7 +112,9 @@ def std_case(item):
     else:
         key = site_key(win.fired, "std")
         res["site"] = key
-        if exit_code != fs.exit_code:
+        if handler_error is not None:
+            res["errs"].append(("handler-does-not-exit-with-the-configured-code", handler_error))
+        elif exit_code != fs.exit_code:
             res["errs"].append(("exit-code", f"{exit_code} vs configured {fs.exit_code}"))
         inspect_and_continue_std(out, kw, state["pre"], res)
     for s, h in old_handlers.items():
@@ -230,12 +238,17 @@ def ins_case(item):
     res = dict(errs=[], fired=None, events=None, info={"phase": "ins"})
     model = make("G2")
     exit_code = None
+    handler_error = None
     try:
         fs = FlowSampler(model, output=out, resume=False, **copy.deepcopy(kw))
         try:
             fs.run(plot=False, save=False)
         except SystemExit as e:
             exit_code = e.code
+        except Exception as e:
+            if win.fired is None:
+                raise
+            handler_error = f"{type(e).__name__}: {e}"
         finally:
             win.stop()
     except Exception as e:
@@ -262,7 +275,9 @@ def ins_case(item):
         return res
     res["site"] = site_key(win.fired, "ins")
     errs = res["errs"]
-    if exit_code != fs.exit_code:
+    if handler_error is not None:
+        errs.append(("handler-does-not-exit-with-the-configured-code", handler_error))
+    elif exit_code != fs.exit_code:
         errs.append(("exit-code", f"{exit_code} vs configured {fs.exit_code}"))
     now = open(rf, "rb").read() if os.path.exists(rf) else None
     if now != state["ckpt"]:
